@@ -1,0 +1,144 @@
+//go:build verif
+// +build verif
+
+// Verification hook for property C06 (build tag "verif").  It only adds
+// exported entry points that call the package's unexported functions
+// unchanged.
+
+package cmd
+
+import (
+	"bytes"
+	"context"
+	"fmt"
+)
+
+// VerifC06Step is what one clause of a script section did to cfg.storyLine.
+type VerifC06Step struct {
+	Err       string   // error returned by parseScript ("" = accepted)
+	Panic     string   // recovered panic, if any
+	StoryLine []string // cfg.storyLine after the clause (when accepted)
+}
+
+// VerifC06Result is everything VerifC06Script observed.
+type VerifC06Result struct {
+	PreambleErr string
+	// Steps[i] is the outcome of script clause i fed to the real parseScript;
+	// feeding stops at the first refused clause.
+	Steps []VerifC06Step
+	// The whole text (preamble + "script" + clauses + "end") through the real
+	// reader, parseCfg and compileV2:
+	FullErr   string
+	FullPanic string
+	TempoNs   int64
+	StoryLine []string
+	Play      [][]VerifScene // Actor == "" for a line without actor (mood change)
+	NilActor  [][][]bool     // NilActor[act][scene][line]: line.actor == nil
+	Printed   string         // printSteps output
+}
+
+func verifC06ExportPlay(cfg *config) (play [][]VerifScene, nilActor [][][]bool) {
+	for _, act := range cfg.play {
+		oa := []VerifScene{}
+		na := [][]bool{}
+		for i := range act {
+			sc := &act[i]
+			os := VerifScene{WaitUntilNs: int64(sc.waitUntil)}
+			var nl []bool
+			for _, l := range sc.concurrentLines {
+				ol := VerifLine{}
+				if l.actor != nil {
+					ol.Actor = l.actor.name
+				}
+				nl = append(nl, l.actor == nil)
+				for _, s := range l.steps {
+					ol.Steps = append(ol.Steps, VerifStep{Typ: int(s.typ), Action: s.action, FailOk: s.failOk})
+				}
+				os.Lines = append(os.Lines, ol)
+			}
+			oa = append(oa, os)
+			na = append(na, nl)
+		}
+		play = append(play, oa)
+		nilActor = append(nilActor, na)
+	}
+	return play, nilActor
+}
+
+// VerifC06Script parses preamble (roles and cast), then feeds every clause to
+// the real parseScript one by one, recording cfg.storyLine after each; then
+// parses the whole text preamble + script section from scratch the way the
+// command does, compiles it and exports the play.
+func VerifC06Script(preamble string, clauses []string) (res VerifC06Result) {
+	ctx := context.Background()
+	// Stepwise.
+	func() {
+		cfg := newConfig()
+		rd, err := newReaderFromString("<verif>", preamble)
+		if err != nil {
+			res.PreambleErr = err.Error()
+			return
+		}
+		defer rd.close()
+		if err := cfg.parseCfg(ctx, rd); err != nil {
+			res.PreambleErr = err.Error()
+			return
+		}
+		for _, cl := range clauses {
+			var st VerifC06Step
+			func() {
+				defer func() {
+					if r := recover(); r != nil {
+						st.Panic = fmt.Sprintf("%v", r)
+					}
+				}()
+				if err := cfg.parseScript(cl); err != nil {
+					st.Err = err.Error()
+					return
+				}
+				st.StoryLine = append([]string{}, cfg.storyLine...)
+			}()
+			res.Steps = append(res.Steps, st)
+			if st.Err != "" || st.Panic != "" {
+				break
+			}
+		}
+	}()
+	// Whole text.
+	func() {
+		defer func() {
+			if r := recover(); r != nil {
+				res.FullPanic = fmt.Sprintf("%v", r)
+			}
+		}()
+		var b bytes.Buffer
+		b.WriteString(preamble)
+		b.WriteString("script\n")
+		for _, cl := range clauses {
+			b.WriteString("  " + cl + "\n")
+		}
+		b.WriteString("end\n")
+		cfg, err := verifParseString(b.String(), nil)
+		if err != nil {
+			res.FullErr = err.Error()
+			return
+		}
+		res.TempoNs = int64(cfg.tempo)
+		res.StoryLine = append([]string{}, cfg.storyLine...)
+		res.Play, res.NilActor = verifC06ExportPlay(cfg)
+		var pb bytes.Buffer
+		cfg.printSteps(&pb, false)
+		res.Printed = pb.String()
+	}()
+	return res
+}
+
+// VerifC06CombineActs calls the real combineActs.
+func VerifC06CombineActs(a1, a2 string) (r string, panicked string) {
+	defer func() {
+		if rec := recover(); rec != nil {
+			panicked = fmt.Sprintf("%v", rec)
+		}
+	}()
+	return combineActs(a1, a2), ""
+}
